@@ -309,7 +309,7 @@ func (cmd *mainCmd) Run(args []string) error {
 		}
 
 		var out bytes.Buffer
-		if err := format.Node(&out, fset, f); err != nil {
+		if err := formatNode(&out, fset, f); err != nil {
 			log.Printf("%s: failed: %v", filename, err)
 			errors = append(errors, fmt.Errorf("failed to rewrite %q: %v", filename, err))
 			continue
@@ -393,6 +393,17 @@ func writeFileAtomic(filename string, bs []byte) (err error) {
 	return os.Rename(tmp, filename)
 }
 
+// formatNode is format.Node, except that a panic raised by the printer on a
+// malformed syntax tree is returned as an error.
+func formatNode(out *bytes.Buffer, fset *token.FileSet, f *ast.File) (err error) {
+	defer func() {
+		if rec := recover(); rec != nil {
+			err = fmt.Errorf("internal error: %v", rec)
+		}
+	}()
+	return format.Node(out, fset, f)
+}
+
 func checkGeneratedCode(f *ast.File) bool {
 	if ast.IsGenerated(f) {
 		return true
@@ -437,6 +448,16 @@ func newPatchRunner(fset *token.FileSet, patches []*engine.Program) *patchRunner
 }
 
 func (r *patchRunner) Apply(filename string, f *ast.File) (fout *ast.File, comments []string, matched bool) {
+	// A panic while matching or rewriting this file (for example from a
+	// patch that builds a malformed syntax tree) is an error for this file,
+	// not a reason to abort the whole run.
+	defer func() {
+		if rec := recover(); rec != nil {
+			r.errors = append(r.errors, fmt.Errorf("could not update %q: internal error: %v", filename, rec))
+			fout, matched = nil, false
+		}
+	}()
+
 	snap := astdiff.Before(f, ast.NewCommentMap(r.fset, f, f.Comments))
 
 	for _, prog := range r.patches {
